@@ -65,6 +65,8 @@ Section Chain.
     n_cls : nat;
     n_cfg : nat;                                        (* which config instance declared it *)
     n_ns : option str;
+    n_cfgname : str;                                    (* name of the declaring config *)
+    n_ctxname : option str;                             (* name of its context *)
     n_params : list (pdecl * (value * bool));
     n_inputs : list (str * (str + value)) }.            (* name -> task (by full name) | default value *)
 
@@ -105,7 +107,10 @@ Section Chain.
           | inr e => inr e
           | inl ps =>
               let name := full_name (c_slug tc) (cf_ns c) in
-              let nd := {| n_cls := k; n_cfg := ci; n_ns := cf_ns c; n_params := ps; n_inputs := [] |} in
+              let nd := {| n_cls := k; n_cfg := ci; n_ns := cf_ns c;
+                          n_cfgname := match config_name c with inl n => n | inr _ => [] end;
+                          n_ctxname := match cf_ctx c with Some x => Some (cx_name x) | None => None end;
+                          n_params := ps; n_inputs := [] |} in
               match dget name acc with
               | Some old => if Nat.eqb (n_cfg old) ci then inl (dset name nd acc) else inr EConflict
               | None => inl (dset name nd acc)
@@ -209,8 +214,8 @@ Section Chain.
         | inl tc =>
             match resolve_inputs tc name names, process_dependencies1 r names with
             | inl ins, inl rest =>
-                inl ((name, {| n_cls := n_cls nd; n_cfg := n_cfg nd; n_ns := n_ns nd; n_params := n_params nd;
-                               n_inputs := ins |}) :: rest)
+                inl ((name, {| n_cls := n_cls nd; n_cfg := n_cfg nd; n_ns := n_ns nd; n_cfgname := n_cfgname nd;
+                               n_ctxname := n_ctxname nd; n_params := n_params nd; n_inputs := ins |}) :: rest)
             | inr e, _ => inr e
             | _, inr e => inr e
             end
@@ -222,6 +227,8 @@ Section Chain.
     o_cls : nat;
     o_cfg : nat;
     o_ns : option str;
+    o_cfgname : str;
+    o_ctxname : option str;
     o_fullname : str;
     o_params : list (pdecl * (value * bool));
     o_inkeys : list (str * str);                 (* input full name -> key *)
@@ -287,7 +294,8 @@ Section Chain.
                         | inr e => inr e
                         | inl key =>
                             inl (register st1 (c_slug tc) key name
-                                           {| o_cls := n_cls nd; o_cfg := n_cfg nd; o_ns := n_ns nd; o_fullname := name;
+                                           {| o_cls := n_cls nd; o_cfg := n_cfg nd; o_ns := n_ns nd; o_cfgname := n_cfgname nd;
+                                              o_ctxname := n_ctxname nd; o_fullname := name;
                                               o_params := n_params nd; o_inkeys := inkeys; o_key := key; o_inputs := [] |})
                         end
                     end
@@ -332,7 +340,8 @@ Section Chain.
                                                       | inl tn => match dget tn new with Some j => inl j | None => inl 0 end
                                                       | inr d => inr d end)) ins in
                     process_dependencies2 r new
-                      (set_nth id {| o_cls := o_cls o; o_cfg := o_cfg o; o_ns := o_ns o; o_fullname := o_fullname o;
+                      (set_nth id {| o_cls := o_cls o; o_cfg := o_cfg o; o_ns := o_ns o; o_cfgname := o_cfgname o;
+                                     o_ctxname := o_ctxname o; o_fullname := o_fullname o;
                                      o_params := o_params o; o_inkeys := o_inkeys o; o_key := o_key o;
                                      o_inputs := ins' |} objs)
                 end
